@@ -310,6 +310,7 @@ func main() {
 	facts.Prov = provOut
 	extractEffects(loadedPkgs)
 	facts.Read = readFacts
+	extractCost(pkgs)
 
 	js, _ := json.MarshalIndent(facts, "", " ")
 	if outJSON != "" {
